@@ -6,6 +6,7 @@ import (
 	"fmt"
 	"go/token"
 	"go/types"
+	"strconv"
 	"strings"
 
 	"golang.org/x/tools/go/ssa"
@@ -402,6 +403,9 @@ func (u *Unit) intrinsic(f *Frame, st *State, key string, callee *ssa.Function, 
 	case "sort.Search":
 		return u.sortSearch(f, st, args, pos), true
 	case "fmt.Errorf", "errors.New":
+		if key == "fmt.Errorf" {
+			u.errWrapObligation(f, st, pos)
+		}
 		r := u.em.fresh("err", "Int")
 		u.assume(st, fmt.Sprintf("(and (> %s 0) (= (itype %s) %d))", r, r, u.em.typeTag(types.Typ[types.UnsafePointer])))
 		u.assume(st, fmt.Sprintf("(= (sentinelId %s) 0)", r))
@@ -849,4 +853,87 @@ func (u *Unit) callSiteObligations(f *Frame, st *State, callee *ssa.Function, ke
 		env.vars = vars
 		u.oblige(f, st, "callsite", short+":"+cs.Clause.label(), env.boolExpr(cs.Clause.Expr), pos)
 	}
+}
+
+// errWrapObligation: an error passed to fmt.Errorf must be wrapped with %w, otherwise its
+// identity (errors.Is / errors.As in the HTTP handler: 404/410/425) is lost.
+func (u *Unit) errWrapObligation(f *Frame, st *State, pos token.Pos) {
+	if f.pure || f.depth != 0 {
+		return
+	}
+	// find the call instruction at pos in the current function
+	for _, b := range f.fn.Blocks {
+		for _, ins := range b.Instrs {
+			call, ok := ins.(*ssa.Call)
+			if !ok || call.Pos() != pos {
+				continue
+			}
+			cc := call.Common()
+			if len(cc.Args) < 2 {
+				return
+			}
+			fc, ok := cc.Args[0].(*ssa.Const)
+			if !ok || fc.Value == nil {
+				return
+			}
+			format := strings.ReplaceAll(constantString(fc), "%%", "")
+			nW := strings.Count(format, "%w")
+			// count error-typed varargs
+			nErr := 0
+			sl, ok := cc.Args[1].(*ssa.Slice)
+			if !ok {
+				return
+			}
+			arr, ok := sl.X.(*ssa.Alloc)
+			if !ok || arr.Referrers() == nil {
+				return
+			}
+			for _, r := range *arr.Referrers() {
+				ia, ok := r.(*ssa.IndexAddr)
+				if !ok || ia.Referrers() == nil {
+					continue
+				}
+				for _, r2 := range *ia.Referrers() {
+					st2, ok := r2.(*ssa.Store)
+					if !ok {
+						continue
+					}
+					if ci, ok := st2.Val.(*ssa.ChangeInterface); ok && isErrorType(ci.X.Type()) {
+						nErr++
+					}
+				}
+			}
+			if nErr == 0 {
+				return
+			}
+			goal := "true"
+			if nW < nErr {
+				goal = "false"
+			}
+			if goal == "true" {
+				u.staticOK(f, st, "errwrap", u.exprText(pos, "Errorf"))
+			} else {
+				u.oblige(f, st, "errwrap", u.exprText(pos, "Errorf"), "false", pos)
+			}
+			return
+		}
+	}
+}
+
+func constantString(c *ssa.Const) string {
+	if c.Value == nil {
+		return ""
+	}
+	s := c.Value.ExactString()
+	if len(s) >= 2 && s[0] == '"' {
+		if us, err := strconv.Unquote(s); err == nil {
+			return us
+		}
+	}
+	return s
+}
+
+func isErrorType(t types.Type) bool {
+	n, ok := t.(*types.Named)
+	return ok && n.Obj().Pkg() == nil && n.Obj().Name() == "error"
 }
